@@ -1,8 +1,7 @@
 /* LD_PRELOAD shim: a virtual CLOCK_MONOTONIC for the profiler's timers.c.
  *
  * Reads that come from the _line_profiler extension return `now` and then add
- * `tick`; all other readers (the interpreter itself) get `now` and do not move the
- * clock, so the profiler's view of time is a deterministic function of its own
+ * `tick`; all other readers (the interpreter itself) get the real clock, so the profiler's view of time is a deterministic function of its own
  * reads and of explicit vclock_advance(d) calls.  VCLOCK_START / VCLOCK_TICK are
  * read from the environment (nanoseconds).
  */
@@ -25,18 +24,27 @@ static void init(void) {
     inited = 1;
 }
 
+/* the text range(s) of the _line_profiler extension, set once by the harness from /proc/self/maps:
+   no dladdr() (dynamic-loader lock) on the hot path, which could deadlock against a thread that
+   holds the loader lock while waiting for the GIL */
+static uintptr_t rng_lo[8], rng_hi[8];
+static int nrng = 0;
+void vclock_add_range(uint64_t lo, uint64_t hi) { if (nrng < 8) { rng_lo[nrng] = (uintptr_t)lo; rng_hi[nrng] = (uintptr_t)hi; nrng++; } }
+
 static int from_profiler(void *ra) {
-    Dl_info info;
-    if (dladdr(ra, &info) && info.dli_fname) return strstr(info.dli_fname, "_line_profiler") != 0;
+    uintptr_t a = (uintptr_t)ra;
+    for (int i = 0; i < nrng; i++) if (a >= rng_lo[i] && a < rng_hi[i]) return 1;
     return 0;
 }
 
 int clock_gettime(clockid_t clk, struct timespec *ts) {
     if (!inited) init();
-    if (clk != CLOCK_MONOTONIC) return real_clock_gettime(clk, ts);
+    /* only the profiler's own reads see the virtual clock; the interpreter (sleep deadlines, lock
+       timeouts, the watchdog) keeps the real one - mixing them makes absolute deadlines nonsense */
+    if (clk != CLOCK_MONOTONIC || !from_profiler(__builtin_return_address(0))) return real_clock_gettime(clk, ts);
     ts->tv_sec = now_ns / 1000000000LL;
     ts->tv_nsec = now_ns % 1000000000LL;
-    if (from_profiler(__builtin_return_address(0))) { now_ns += tick_ns; reads++; }
+    now_ns += tick_ns; reads++;
     return 0;
 }
 
